@@ -146,7 +146,16 @@ type PathInfo struct {
 	Lead0  *lin.Expr // lead of the fork's source at the fork
 }
 
+// IndCall records that a stream is output OutIdx of a sub-indicator's Compute applied to Args.
+type IndCall struct {
+	Obj    *Object
+	OutIdx int
+	Args   []*Stream
+	Pos    token.Pos
+}
+
 type Stream struct {
+	Ind *IndCall
 	ID       int
 	Name     string
 	Pos      token.Pos
@@ -224,6 +233,7 @@ type StageIn struct {
 }
 
 type SendInfo struct {
+	Steady bool // sent once per element received in its loop (not a fill prefix)
 	Out    *Stream
 	Expr   ast.Expr
 	Frame  *Frame
